@@ -434,8 +434,8 @@ fn c14_o2_ping_round() {
 fn c06_o3b_cached_nodes_usable() {
     clock::set(0);
     let mut core = new_core(false, vec![]);
-    let has: [bool; 2] = kani::any();
-    let at: [u64; 2] = kani::any();
+    let has: [bool; 2] = [kani::any(), kani::any()];
+    let at: [u64; 2] = [kani::any(), kani::any()];
     kani::assume(at[0] <= 1000 && at[1] <= 1000);
     let now: u64 = kani::any();
     kani::assume(now <= 1000 && now >= at[0] && now >= at[1]);
